@@ -65,6 +65,7 @@ func buildFamily(p *core.Prog, pkg string) (*parserFamily, error) {
 	fam.recvNamed = namedOf(fu.Signature.Recv().Type())
 	fam.collect = p.LookupFunc(pkg, "(*Parser).collect")
 	seen := map[*ssa.Function]bool{}
+	var ambiguous []*ssa.Function
 	var visit func(f *ssa.Function)
 	visit = func(f *ssa.Function) {
 		if seen[f] || f.Blocks == nil || !p.InModule(f) {
@@ -102,7 +103,8 @@ func buildFamily(p *core.Prog, pkg string) (*parserFamily, error) {
 			if idx < res.Len() && isByteSlice(res.At(idx).Type()) {
 				ri = idx
 			}
-		} else {
+		}
+		if ri < 0 {
 			for i := 0; i < res.Len(); i++ {
 				if isByteSlice(res.At(i).Type()) {
 					ri = i
@@ -113,9 +115,55 @@ func buildFamily(p *core.Prog, pkg string) (*parserFamily, error) {
 		if ri < 0 {
 			return
 		}
+		nSlices := 0
+		for i := 0; i < res.Len(); i++ {
+			if isByteSlice(res.At(i).Type()) {
+				nSlices++
+			}
+		}
+		if idx, inTable := restIndexTable[core.FuncKey(f)]; nSlices > 1 && !(inTable && idx == ri) {
+			ambiguous = append(ambiguous, f)
+		}
 		fam.steps[f] = &stepFn{fn: f, chunk: chunk, restIdx: ri, errIdx: errResultIndex(f.Signature)}
 	}
 	visit(fu)
+	// a step with several []byte results that the table does not know (its signature changed): the remaining input
+	// is the result its callers hand on as their own remaining input
+	for _, f := range ambiguous {
+		votes := map[int]int{}
+		for g, sg := range fam.steps {
+			if g == f {
+				continue
+			}
+			amb := false
+			for _, a := range ambiguous {
+				if a == g {
+					amb = true
+				}
+			}
+			if amb {
+				continue
+			}
+			for _, b := range g.Blocks {
+				ret, ok := b.Instrs[len(b.Instrs)-1].(*ssa.Return)
+				if !ok || sg.restIdx >= len(ret.Results) {
+					continue
+				}
+				for _, o := range origins(ret.Results[sg.restIdx]) {
+					if ex, ok := o.(*ssa.Extract); ok {
+						if c, ok := ex.Tuple.(*ssa.Call); ok && c.Common().StaticCallee() == f {
+							votes[ex.Index]++
+						}
+					}
+				}
+			}
+		}
+		if len(votes) == 1 {
+			for idx := range votes {
+				fam.steps[f].restIdx = idx
+			}
+		}
+	}
 	fam.computeMustState(p)
 	return fam, nil
 }
